@@ -21,6 +21,7 @@ open Wp
 inductive Num where
   | int (i : Int)
   | flt (q : Rat)
+  | none            -- Python `None` where a number is expected (a CSS Color 4 `none` component kept by tinycss2)
   deriving DecidableEq, Repr, Inhabited
 
 namespace Num
@@ -28,6 +29,13 @@ namespace Num
 def val : Num → Rat
   | int i => (i : Rat)
   | flt q => q
+  | none => 0
+
+/-- The value as Python compares it (`None == 0` is false). -/
+def key : Num → Option Rat
+  | int i => some (i : Rat)
+  | flt q => some q
+  | none => Option.none
 
 /-- Left-pad with zeros to `n` characters. -/
 def padZeros (n : Nat) (s : String) : String :=
@@ -56,6 +64,7 @@ def isInteger (q : Rat) : Bool := q.den == 1
 def toBytes : Num → String
   | int i => toString i
   | flt q => if isInteger q then toString q.num else rstripZeros (fmt6 q)
+  | none => "None"      -- `str(None).encode('ascii')`: what pydyf writes for a `None` operand
 
 /-- Digits of the fractional part `r / d` (0 ≤ r < d), at most `fuel` of them, stopping when exact. -/
 def fracDigits (d : Nat) : Nat → Nat → List Char
@@ -75,11 +84,13 @@ def pyStr : Num → String
       let ip := a.floor.toNat
       let r := a.num.toNat - ip * a.den
       (if q < 0 then "-" else "") ++ toString ip ++ "." ++ String.ofList (fracDigits a.den 60 r)
+  | none => "None"
 
 end Num
 
 /-- Wire form: `i<int>` or `f<rat>`. -/
 def Num.parse? (s : String) : Option Num :=
+  if s == "none" then some Num.none else
   match s.toList with
   | 'i' :: rest => (String.ofList rest).toInt?.map Num.int
   | 'f' :: rest => (parseRat (String.ofList rest)).map Num.flt
